@@ -552,7 +552,17 @@ type memFile struct {
 
 // These are helper functions, they must be called while holding the memFile.mu mutex
 func (f *memFile) size() int64  { return int64(len(f.content)) }
-func (f *memFile) grow(n int64) { f.content = append(f.content, make([]byte, n)...) }
+
+// memFileMaxSize bounds how far a write or a truncate may extend an in-memory file.
+const memFileMaxSize = 1 << 30
+
+func (f *memFile) grow(n int64) error {
+	if n < 0 || n > memFileMaxSize-f.size() {
+		return syscall.EFBIG
+	}
+	f.content = append(f.content, make([]byte, n)...)
+	return nil
+}
 
 // Have memFile fulfill os.FileInfo interface
 func (f *memFile) Name() string { return path.Base(f.name) }
@@ -613,9 +623,18 @@ func (f *memFile) WriteAt(b []byte, off int64) (int, error) {
 		return 0, f.err
 	}
 
+	if off < 0 {
+		return 0, errors.New("memFile.WriteAt: negative offset")
+	}
+	if off > memFileMaxSize {
+		return 0, syscall.EFBIG
+	}
+
 	grow := int64(len(b)) + off - f.size()
 	if grow > 0 {
-		f.grow(grow)
+		if err := f.grow(grow); err != nil {
+			return 0, err
+		}
 	}
 
 	return copy(f.content[off:], b), nil
@@ -629,14 +648,17 @@ func (f *memFile) Truncate(size int64) error {
 		return f.err
 	}
 
+	if size < 0 {
+		return errors.New("memFile.Truncate: negative size")
+	}
+
 	grow := size - f.size()
 	if grow <= 0 {
 		f.content = f.content[:size]
-	} else {
-		f.grow(grow)
+		return nil
 	}
 
-	return nil
+	return f.grow(grow)
 }
 
 func (f *memFile) TransferError(err error) {
